@@ -64,28 +64,28 @@ def _u_reads(fn_node):
     return out
 
 
-def run(ctx):
-    prog = ctx.prog
-    ctx.trust("networkx Graph.copy / neighbors / remove_edges_from / is_connected", "motifs evaluated on one evaluator are distinctly named (the statement's contract)")
+def _setup(prog):
     ci = prog.cls("AutomatedEquation")
     ae = prog.method(ci, "automated_equation")
-    gcs = prog.method(ci, "get_connected_subgraphs")
-    rec = prog.method(ci, "_get_connected_subgraphs")
-    gec = prog.method(ci, "get_edge_combinations")
     gus = prog.method(ci, "get_us")
-    sc = Scope(ae.node)
-    par = sc.parents
-    Gp, p_param, root = ae.params[1], ae.params[2], ae.params[3]
-
-    # which methods store into which cache (the two known caches plus any other dict attribute used as one)
     writers = {}
     for m in ci.methods.values():
         for n in astx.walk_fn(m.node):
             if isinstance(n, ast.Assign) and isinstance(n.targets[0], ast.Subscript) and astx.self_attr(n.targets[0].value) is not None:
                 writers.setdefault(astx.self_attr(n.targets[0].value), []).append((m, n))
     ALL_CACHES = tuple(CACHES) + tuple(k for k in writers if k not in CACHES)
+    return ci, ae, gus, writers, ALL_CACHES, ae.params[2]
 
-    with ctx.obligation("C15.1", "caches are structure-only: phi and the u values cannot flow into a cached value or key", floor=3) as o:
+
+def run_cache_rules_for(ctx, oid):
+    ci, ae, gus, writers, ALL_CACHES, p_param = _setup(ctx.prog)
+    cache_rules(ctx, oid, ctx.prog, ci, ae, gus, writers, ALL_CACHES, p_param)
+
+
+def cache_rules(ctx, oid, prog, ci, ae, gus, writers, ALL_CACHES, p_param):
+    """C15.1 (also run as C17.8: message passing keeps ONE evaluator alive across sweeps and phi values, so what the
+    evaluator caches must not depend on phi or on the u values installed for one evaluation)."""
+    with ctx.obligation(oid, "caches are structure-only: phi and the u values cannot flow into a cached value or key", floor=3) as o:
         # tainted locals of automated_equation
         tainted = {p_param}
         changed = True
@@ -103,12 +103,45 @@ def run(ctx):
                     if astx.names_in(v) & tainted or _u_reads(v) or any(isinstance(x, ast.Call) and txt(x.func) == "self.get_us" for x in ast.walk(v)):
                         tainted.add(tg)
                         changed = True
+        from gcmstatic.normalize import load_vocabulary
+        vocab_ = load_vocabulary()
+
+        def _tainted_in(m_):
+            """locals of m_ whose value depends on phi or on the u values"""
+            t_ = {q for q in m_.params[1:] if q in (p_param, "p", "phi")}
+            ch_ = True
+            while ch_:
+                ch_ = False
+                for n_ in astx.walk_fn(m_.node):
+                    tg_ = v_ = None
+                    if isinstance(n_, ast.Assign) and len(n_.targets) == 1 and isinstance(n_.targets[0], ast.Name):
+                        tg_, v_ = n_.targets[0].id, n_.value
+                    elif isinstance(n_, ast.AugAssign) and isinstance(n_.target, ast.Name):
+                        tg_, v_ = n_.target.id, n_.value
+                    elif isinstance(n_, ast.Call) and isinstance(n_.func, ast.Attribute) and n_.func.attr in ("append", "extend", "add", "update", "insert") and isinstance(n_.func.value, ast.Name) and n_.args:
+                        tg_, v_ = n_.func.value.id, ast.Tuple(elts=list(n_.args), ctx=ast.Load())
+                    elif isinstance(n_, ast.Assign) and len(n_.targets) == 1 and isinstance(n_.targets[0], ast.Subscript) and isinstance(n_.targets[0].value, ast.Name):
+                        tg_, v_ = n_.targets[0].value.id, n_.value
+                    if tg_ and tg_ not in t_ and (astx.names_in(v_) & t_ or _u_reads(v_) or any(isinstance(x_, ast.Call) and txt(x_.func) == "self.get_us" for x_ in ast.walk(v_))):
+                        t_.add(tg_)
+                        ch_ = True
+            return t_
         for cache in ALL_CACHES:
             ws = writers.get(cache, [])
             if not ws:
                 o.undecided(f"no store into self.{cache} found", ae)
                 continue
             for m, st in ws:
+                if m is ae or (vocab_ and m.qualname not in vocab_):
+                    # the store sits in the equation itself (a spliced helper) or in a new function: only what FLOWS into
+                    # the stored value / key matters, not what else the function computes
+                    t_ = _tainted_in(m)
+                    used_ = astx.names_in(st.value) | astx.names_in(st.targets[0].slice)
+                    if used_ & t_:
+                        o.violated(m, st, f"the value cached in self.{cache} depends on {sorted(used_ & t_)} (phi / u): it is wrong for the next phi or u")
+                    else:
+                        o.holds(m, st, f"self.{cache}[key] is built from {sorted(used_)[:4]}, none of which depends on phi or on the u values")
+                    continue
                 # (a) the writer and its callees never read 'u' and have no phi parameter fed by a tainted argument
                 reach = [m]
                 for x in astx.walk_fn(m.node):
@@ -167,11 +200,67 @@ def run(ctx):
                                           "call that filled the entry, so later evaluations of the same named motif read stale u")
                 if isinstance(v, ast.Name) and v.id in gparams:
                     o.violated(m, st, f"self.{cache} stores the motif graph itself")
+        # (d) a graph object that comes OUT of a cache still carries the u values of the call that stored it: reading u from it
+        # (directly or through get_us) evaluates the motif with stale values
+        for m in {mm.qualname: mm for ws_ in writers.values() for mm, _ in ws_}.values():
+            cached_ = set()
+            ch_ = True
+            while ch_:
+                ch_ = False
+                for n_ in astx.walk_fn(m.node):
+                    tgs_, v_ = [], None
+                    if isinstance(n_, ast.Assign) and len(n_.targets) == 1:
+                        tgs_, v_ = [x.id for x in ast.walk(n_.targets[0]) if isinstance(x, ast.Name) and isinstance(x.ctx, ast.Store)], n_.value
+                    elif isinstance(n_, ast.For):
+                        tgs_, v_ = [x.id for x in ast.walk(n_.target) if isinstance(x, ast.Name)], n_.iter
+                    if v_ is None:
+                        continue
+                    from_cache_ = any(isinstance(x, ast.Subscript) and astx.self_attr(x.value) in writers and isinstance(x.ctx, ast.Load) for x in ast.walk(v_)) or \
+                        any(isinstance(x, ast.Call) and isinstance(x.func, ast.Attribute) and x.func.attr in ("get", "setdefault") and astx.self_attr(x.func.value) in writers for x in ast.walk(v_)) or \
+                        bool(astx.names_in(v_) & cached_)
+                    fresh_ = isinstance(v_, ast.Call) and txt(v_.func) in ("list", "tuple", "len", "set", "sorted") and False
+                    if from_cache_ and not fresh_:
+                        for t_ in tgs_:
+                            if t_ not in cached_:
+                                cached_.add(t_)
+                                ch_ = True
+            for n_ in astx.walk_fn(m.node):
+                if isinstance(n_, ast.Call) and txt(n_.func) == "self.get_us" and n_.args and isinstance(n_.args[0], ast.Name) and n_.args[0].id in cached_:
+                    o.violated(m, n_, f"`{txt(n_)[:60]}` reads the u values from `{n_.args[0].id}`, an object taken out of the cache: they are the values of the call that filled the entry, "
+                                      "not of this call (a later evaluation of the same named motif is answered with stale u)", shape_free=True)
+            for ur_ in _u_reads(m.node):
+                base_ = astx.root_name(ur_.value) if isinstance(ur_, ast.Subscript) else None
+                if base_ in cached_:
+                    o.violated(m, ur_, f"`{txt(ur_)[:60]}` reads u from `{base_}`, an object taken out of the cache (stale values of an earlier call)", shape_free=True)
         # positive control: get_us does read 'u' (the rule can see such reads)
         if not _u_reads(gus.node):
             o.undecided("positive control failed: no read of the 'u' attribute found in get_us", gus)
         else:
             o.holds(gus, _u_reads(gus.node)[0], "positive control: the rule sees the read of 'u' in get_us (which is not cached)")
+
+
+def run(ctx):
+    prog = ctx.prog
+    ctx.trust("networkx Graph.copy / neighbors / remove_edges_from / is_connected", "motifs evaluated on one evaluator are distinctly named (the statement's contract)")
+    ci = prog.cls("AutomatedEquation")
+    ae = prog.method(ci, "automated_equation")
+    gcs = prog.method(ci, "get_connected_subgraphs")
+    rec = prog.method(ci, "_get_connected_subgraphs")
+    gec = prog.method(ci, "get_edge_combinations")
+    gus = prog.method(ci, "get_us")
+    sc = Scope(ae.node)
+    par = sc.parents
+    Gp, p_param, root = ae.params[1], ae.params[2], ae.params[3]
+
+    # which methods store into which cache (the two known caches plus any other dict attribute used as one)
+    writers = {}
+    for m in ci.methods.values():
+        for n in astx.walk_fn(m.node):
+            if isinstance(n, ast.Assign) and isinstance(n.targets[0], ast.Subscript) and astx.self_attr(n.targets[0].value) is not None:
+                writers.setdefault(astx.self_attr(n.targets[0].value), []).append((m, n))
+    ALL_CACHES = tuple(CACHES) + tuple(k for k in writers if k not in CACHES)
+
+    cache_rules(ctx, "C15.1", prog, ci, ae, gus, writers, ALL_CACHES, p_param)
 
     with ctx.obligation("C15.2", "cache keys contain every input of the cached computation besides the motif's identity", floor=2) as o:
         for m, cache in ((gcs, "_connected_subgraphs"), (gec, "_edge_combinations")):
@@ -234,7 +323,10 @@ def run(ctx):
             uses = [n for n in astx.walk_fn(ae.node) if isinstance(n, ast.Call) and txt(n.func) in ("self.get_us", "self.get_edge_combinations") and n.args and txt(n.args[0]) == g]
             bad_uses = [n for n in astx.walk_fn(ae.node) if isinstance(n, ast.Call) and txt(n.func) in ("self.get_us", "self.get_edge_combinations") and n.args and txt(n.args[0]) != g]
             for n in bad_uses:
-                o.violated(ae, n, f"`{txt(n)}` works on `{txt(n.args[0])}`, not on the stripped component graph `{g}`")
+                if txt(n.args[0]) == Gp and len(n.args) == 2 and not n.keywords:
+                    o.violated(ae, n, f"`{txt(n)}` works on `{txt(n.args[0])}`, not on the stripped component graph `{g}`")
+                else:
+                    o.undecided(f"`{txt(n)[:70]}` works on `{txt(n.args[0])}`: whether that is the stripped component graph `{g}` (or a restriction to it) is not recognised", ae, n)
             cfg = CFG(ae.node)
             if len(rme) != 1 or len(rmn) != 1 or len(uses) < 2:
                 if not rme:
